@@ -64,12 +64,22 @@ func realArgs(ev Event) []Val {
 	return nil
 }
 
-// checkStripes is rule S1: rows Min.Y+workerNum, step workerCount, < Max.Y;
-// columns Min.X .. < Max.X step 1 — over the rectangle `rect`.
-func checkStripes(r *Report, rule, key, pos string, cf closureFacts, rect *Agg, rectName string) (rowK, colK string, ok bool) {
+// checkStripes is rule S1: the rows visited by the workers partition
+// [rect.Min.Y, rect.Max.Y) (residue classes or contiguous bands, see
+// partition.go) and every row is traversed over columns Min.X .. < Max.X step 1.
+// sites are all cases of the RunWorkers call ws belongs to; the verdict is
+// reported once per call (with the first case) and shared by the others.
+var stripeVerdicts = map[string]bool{}
+
+func checkStripes(r *Report, rule, key, pos string, ws workerSite, sites []workerSite, rect *Agg, rectName string) (rowK, colK string, ok bool) {
+	cf := factsOf(ws)
 	if len(cf.Loops) != 2 {
 		r.Violate(rule, key, pos, fmt.Sprintf("worker has %d counting loops; required an outer row loop and an inner column loop", len(cf.Loops)))
 		return "", "", false
+	}
+	vk := fmt.Sprintf("%s|%s|%s|%d", r.Property, rule, key, ws.Group)
+	if ws.CaseIdx > 0 {
+		return cf.Loops[0].K, cf.Loops[1].K, stripeVerdicts[vk]
 	}
 	minX, _ := formAt(rect, 0, 0)
 	minY, _ := formAt(rect, 0, 1)
@@ -79,15 +89,34 @@ func checkStripes(r *Report, rule, key, pos string, cf closureFacts, rect *Agg, 
 		r.Undecide(rule, key, pos, "bounds rectangle not extractable")
 		return "", "", false
 	}
-	o, in := cf.Loops[0], cf.Loops[1]
-	wn, wc := formAtom("workerNum"), formAtom("workerCount")
-	okRow := o.First.Equal(minY.Add(wn)) && o.Limit.Equal(maxY) && o.Step.Equal(wc)
-	okCol := in.First.Equal(minX) && in.Limit.Equal(maxX) && in.Step.Equal(formInt(1))
-	detail := fmt.Sprintf("rows %s.Min.Y+workerNum, +workerCount, < %s.Max.Y; columns %s.Min.X .. < %s.Max.X step 1: residue classes mod workerCount partition the rows for every parallelism >= 1", rectName, rectName, rectName, rectName)
-	bad := fmt.Sprintf("rows start at %s, step %s, end before %s; columns start at %s, step %s, end before %s — required rows %s.Min.Y+workerNum step workerCount < %s.Max.Y and columns %s.Min.X step 1 < %s.Max.X (otherwise pixels are skipped or visited by several workers)",
-		trunc(o.First.String(), 80), trunc(o.Step.String(), 40), trunc(o.Limit.String(), 80), trunc(in.First.String(), 80), trunc(in.Step.String(), 40), trunc(in.Limit.String(), 80), rectName, rectName, rectName, rectName)
+	var cases []rowCase
+	okCol, colWhy := true, ""
+	for _, sb := range sites {
+		if sb.Group != ws.Group || sb.Err != "" {
+			continue
+		}
+		c := factsOf(sb)
+		if len(c.Loops) != 2 {
+			okCol, colWhy = false, "a case of the worker body has no row/column loop pair"
+			continue
+		}
+		o, in := c.Loops[0], c.Loops[1]
+		cases = append(cases, rowCase{F: o.First, E: o.Limit, Step: o.Step, Conds: sb.CaseConds})
+		if !(in.First.Equal(minX) && in.Limit.Equal(maxX) && in.Step.Equal(formInt(1))) {
+			okCol = false
+			colWhy = fmt.Sprintf("columns start at %s, step %s, end before %s — required %s.Min.X step 1 < %s.Max.X", trunc(in.First.String(), 80), trunc(in.Step.String(), 40), trunc(in.Limit.String(), 80), rectName, rectName)
+		}
+	}
+	okRow, how, rowWhy := ws.E.rowsPartition(cases, minY, maxY)
+	detail := fmt.Sprintf("rows of %s: %s; columns %s.Min.X .. < %s.Max.X step 1", rectName, how, rectName, rectName)
+	bad := rowWhy
+	if bad == "" {
+		bad = colWhy
+	}
+	bad += " (otherwise pixels are skipped or visited by several workers)"
 	r.Check(okRow && okCol, rule, key, pos, detail, bad)
-	return o.K, in.K, okRow && okCol
+	stripeVerdicts[vk] = okRow && okCol
+	return cf.Loops[0].K, cf.Loops[1].K, okRow && okCol
 }
 
 // byteOf decodes a stored byte value: which 8-bit run of which atom.
@@ -180,12 +209,19 @@ func runC10(p *Program, r *Report) {
 			nret++
 		}
 	}
-	r.Check(nret == len(sites) && len(sites) >= 2, "C10.S4", "TransformImageColor dispatch", p.FnPos(fn), fmt.Sprintf("%d type-switch paths, each running exactly one worker closure", nret), fmt.Sprintf("%d paths but %d RunWorkers calls: some path converts no pixels or converts them twice", nret, len(sites)))
+	groups := map[int]bool{}
+	for _, ws := range sites {
+		groups[ws.Group] = true
+	}
+	r.Check(nret == len(groups) && len(groups) >= 2, "C10.S4", "TransformImageColor dispatch", p.FnPos(fn), fmt.Sprintf("%d type-switch paths, each running exactly one worker closure", nret), fmt.Sprintf("%d paths but %d RunWorkers calls: some path converts no pixels or converts them twice", nret, len(groups)))
 	hasDefault := false
 	for _, ws := range sites {
 		key := shortFn(ws.Closure)
 		if ws.Closure != nil {
 			r.SawFn(key)
+		}
+		if ws.CaseIdx > 0 {
+			key = fmt.Sprintf("%s case %d", key, ws.CaseIdx+1)
 		}
 		if ws.Err != "" {
 			r.Violate("C10.S1", key, ws.Pos, ws.Err)
@@ -198,7 +234,7 @@ func runC10(p *Program, r *Report) {
 		// the source rectangle = src.Bounds()
 		srcB := appAgg(e, "invoke:Bounds", "src")
 		dstB := appAgg(e, "invoke:Bounds", "dst")
-		rowK, colK, ok := checkStripes(r, "C10.S1", key+" stripes", ws.Pos, cf, srcB, "src.Bounds()")
+		rowK, colK, ok := checkStripes(r, "C10.S1", key+" stripes", ws.Pos, ws, sites, srcB, "src.Bounds()")
 		if !ok {
 			continue
 		}
@@ -470,9 +506,10 @@ func checkConvertHelper(p *Program, r *Report, name, target string) {
 		r.Undecide("C15.identity", name, p.FnPos(fn), err.Error())
 		return
 	}
-	siteOf := map[string]*workerSite{}
+	siteOf := map[string][]*workerSite{}
 	for k := range sites {
-		siteOf[condsOfKey(sites[k].Conds)] = &sites[k]
+		ck := condsOfKey(sites[k].Conds)
+		siteOf[ck] = append(siteOf[ck], &sites[k])
 	}
 	sawIdentity, sawFallback := false, false
 	for _, o := range outs {
@@ -528,14 +565,23 @@ func checkConvertHelper(p *Program, r *Report, name, target string) {
 			r.Check(good, "C15.bounds", name+" fallback", p.Pos(o.Pos), "out = New(img.Bounds()); draw.Draw(out, out.Rect, img, out.Rect.Min, draw.Src); return out", why)
 			sawFallback = true
 		default:
-			ws := siteOf[ck]
+			wss := siteOf[ck]
 			key := name + " " + arm
-			if ws == nil {
+			if len(wss) == 0 {
 				r.Violate("C15.partition", key, p.Pos(o.Pos), "arm converts without a worker closure and is not the draw.Draw fallback")
 				continue
 			}
-			r.SawFn(shortFn(ws.Closure))
-			checkConvertArm(p, r, key, arm, target, *ws, o)
+			r.SawFn(shortFn(wss[0].Closure))
+			for _, ws := range wss {
+				ckey := key
+				if ws.NCases > 1 {
+					ckey = fmt.Sprintf("%s case %d", key, ws.CaseIdx+1)
+				}
+				if ws.CaseIdx == 0 {
+					ckey = key
+				}
+				checkConvertArm(p, r, ckey, arm, target, *ws, sites, o)
+			}
 		}
 	}
 	if !sawIdentity {
@@ -575,7 +621,7 @@ func lastPositiveType(cs []*BoolVal) string {
 	return ""
 }
 
-func checkConvertArm(p *Program, r *Report, key, arm, target string, ws workerSite, o Outcome) {
+func checkConvertArm(p *Program, r *Report, key, arm, target string, ws workerSite, allSites []workerSite, o Outcome) {
 	if ws.Err != "" {
 		r.Violate("C15.partition", key, ws.Pos, ws.Err)
 		return
@@ -602,7 +648,7 @@ func checkConvertArm(p *Program, r *Report, key, arm, target string, ws workerSi
 		return
 	}
 	out := valKey(newEv.Res)
-	rowK, colK, ok := checkStripes(r, "C15.partition", key+" stripes", ws.Pos, cf, inRect, "output.Rect (= input.Rect)")
+	rowK, colK, ok := checkStripes(r, "C15.partition", key+" stripes", ws.Pos, ws, allSites, inRect, "output.Rect (= input.Rect)")
 	if !ok {
 		return
 	}
